@@ -23,7 +23,7 @@
 (*   lit(v) type(t) pred(name,id) regex(name,func) m(cmp,rhs) mtruthy msub(steps,cmp,rhs)     *)
 (*   msubt(steps) tget(steps) val(v)                                                       *)
 (*   and(c,form,hasdef,def) or(c,form,hasdef,def) not(c,form)                              *)
-(*   switch(cases,hasdef,def) check(types,inst,vals,validate,hasdef,def)                   *)
+(*   switch(cases,hasdef,def) check(types,inst,vals,oneof,validate,hasdef,def)                *)
 (*   match(sub,hasdef,def)                                                                 *)
 (*   list(alts) set(alts) frozenset(alts) tuple(elems) dict(items)                         *)
 (*   optional(key,hasdef,def) required(key)            -- dict keys only                   *)
@@ -171,8 +171,8 @@ PAnd(c, form, hasdef, def) == [op |-> "and", c |-> c, form |-> form, hasdef |-> 
 POr(c, form, hasdef, def) == [op |-> "or", c |-> c, form |-> form, hasdef |-> hasdef, def |-> def]
 PNot(c, form) == [op |-> "not", c |-> <<c>>, form |-> form]
 PSwitch(cases, hasdef, def) == [op |-> "switch", cases |-> cases, hasdef |-> hasdef, def |-> def]
-PCheck(types, inst, vals, validate, hasdef, def) ==
-  [op |-> "check", types |-> types, inst |-> inst, vals |-> vals, validate |-> validate,
+PCheck(types, inst, vals, oneof, validate, hasdef, def) ==      \* oneof: vals given as one_of=, else equal_to=
+  [op |-> "check", types |-> types, inst |-> inst, vals |-> vals, oneof |-> oneof, validate |-> validate,
    hasdef |-> hasdef, def |-> def]
 PMatch(sub, hasdef, def) == [op |-> "match", sub |-> sub, hasdef |-> hasdef, def |-> def]
 PList(alts) == [op |-> "list", alts |-> alts]
@@ -225,6 +225,8 @@ InFragment(mode, p) ==
   ELSE IF p.op = "tuple" THEN mode = "match" /\ all(p.elems, mode)
   ELSE IF p.op = "dict" THEN
          mode = "match" /\ \A i \in 1..Len(p.items) :
+            /\ \A j \in 1..(i - 1) :               \* two Optionals for one key: undocumented
+                  ~(p.items[i][1].op = "optional" /\ p.items[j][1].op = "optional" /\ PyEq(p.items[i][1].key, p.items[j][1].key))
             /\ Hashable(p.items[i][1])
             /\ InFragment(mode, KeyPat(p.items[i][1]))
             /\ (p.items[i][1].op = "required" => ~IsEqKey(p.items[i][1].key))
@@ -287,7 +289,13 @@ Core(mode, t, p) ==
                \E i \in 1..Len(t.items) : FirstKey(t.items[i].key, p.items) = j
   ELSE FALSE
 
-Holds(mode, t, p) == Core(mode, t, p) \/ HasDef(p)
+\* "each honours its default": And / Or / Match / Check never fail with a GlomError when they
+\* have one; Switch's default stands for "no case matched" only -- the value spec of the case
+\* that did match is not covered by it
+Holds(mode, t, p) ==
+  IF p.op = "switch"
+  THEN Core(mode, t, p) \/ (p.hasdef /\ \A i \in 1..Len(p.cases) : ~Holds(mode, t, p.cases[i][1]))
+  ELSE Core(mode, t, p) \/ HasDef(p)
 
 \* the value a passing evaluation yields (meaningful only where Holds)
 Denotes(mode, t, p) ==
@@ -408,9 +416,15 @@ EvSwitch(mode, t, p, i) ==
        ELSE Prepend(rk.calls, rk.amb, EvSwitch(mode, t, p, i + 1))
 
 \* Check.glomit
+\* (mutant check_default_ignored: the historic behaviour -- a validator that raises, with the
+\* other conditions met, led to a CheckError although a default was given)
 EvCheck(t, p) ==
-  IF CheckHolds(t, p) THEN Pass(t, <<>>, TRUE)
-  ELSE IF p.hasdef THEN Pass(p.def, <<>>, FALSE) ELSE Fail({"CheckError"}, <<>>)
+  LET raising == \E i \in 1..Len(p.validate) : ~PredRet(p.validate[i].name, t).ok
+      others == CheckHolds(t, [p EXCEPT !.validate = SelectSeq(p.validate, LAMBDA v : PredRet(v.name, t).ok),
+                                        !.types = IF p.types = <<>> /\ p.inst = <<>> /\ p.vals = <<>> THEN <<PyType(t)>> ELSE @])
+  IN IF CheckHolds(t, p) THEN Pass(t, <<>>, TRUE)
+     ELSE IF p.hasdef /\ ~(Mutant = "check_default_ignored" /\ raising /\ others) THEN Pass(p.def, <<>>, FALSE)
+     ELSE Fail({"CheckError"}, <<>>)
 
 \* one target item against the alternatives of a list / set / frozenset pattern, in order
 EvAlts(t, alts, i, acc) ==
@@ -493,11 +507,15 @@ Ev(mode, t, p) ==
   ELSE IF p.op = "tget" THEN
     LET g == TGet(t, p.steps, 1) IN IF g.ok THEN Pass(g.v, <<>>, p.steps = <<>>) ELSE Fail({"PathAccessError"}, <<>>)
   ELSE IF p.op = "val" THEN Pass(p.v, <<>>, FALSE)
+  ELSE IF p.op \in {"and", "or"} /\ Mutant = "opform_drops_default" /\ p.form = "op" /\ p.c[1].op = p.op /\ p.c[1].hasdef THEN
+    \* the historic behaviour of And(.., default=d) & x / Or(.., default=d) | x: one flat
+    \* combinator over the left operand's children and x, the default gone
+    Ev(mode, t, [p EXCEPT !.c = p.c[1].c \o Tail(p.c), !.form = "ctor"])
   ELSE IF p.op = "and" THEN WithDefault(EvAnd(mode, t, p.c, 1), p)
   ELSE IF p.op = "or" THEN WithDefault(EvOr(mode, t, p.c, 1, {}), p)
   ELSE IF p.op = "not" THEN                              \* Not.glomit
     LET r == Ev(mode, t, p.c[1]) IN
-    IF r.ok THEN [Fail({"MatchError"}, r.calls) EXCEPT !.amb = r.amb]
+    IF r.ok THEN [Fail({IF Mutant = "not_glomerror" THEN "GlomError" ELSE "MatchError"}, r.calls) EXCEPT !.amb = r.amb]
     ELSE IF Foreign(r) THEN r
     ELSE [Pass(t, r.calls, TRUE) EXCEPT !.amb = r.amb]
   ELSE IF p.op = "switch" THEN EvSwitch(mode, t, p, 1)
@@ -507,6 +525,12 @@ Ev(mode, t, p) ==
   ELSE IF p.op = "tuple" THEN EvTuple(t, p)
   ELSE IF p.op = "dict" THEN EvDict(t, p)
   ELSE Fail({"Unmodelled"}, <<>>)
+
+\* outcomes as state-variable values: errs as a sequence in a fixed order
+ErrNames == <<"MatchError", "TypeMatchError", "CheckError", "PathAccessError", "GlomError",
+              "TypeError", "ValueError", "Unmodelled">>
+Dumped(o) == [o EXCEPT !.errs = SelectSeq(ErrNames, LAMBDA e : e \in o.errs)]
+Undumped(o) == [o EXCEPT !.errs = {o.errs[i] : i \in 1..Len(o.errs)}]
 
 \* --- the interface named by the design --------------------------------------------
 Conforms(heap, target, pattern) == Holds("match", TreeOf(heap, target), pattern)
@@ -537,4 +561,14 @@ PredIds(p) ==
   ELSE IF p.op = "dict" THEN UNION {PredIds(KeyPat(p.items[i][1])) \cup PredIds(p.items[i][2]) : i \in 1..Len(p.items)}
   ELSE {}
 Called(o) == {o.calls[i] : i \in 1..Len(o.calls)}
+
+\* give every named predicate of a tree a distinct id (its position, base 8)
+RECURSIVE Label(_, _)
+Label(p, n) ==
+  IF p.op = "pred" THEN [p EXCEPT !.id = n]
+  ELSE IF p.op \in {"and", "or", "not"} THEN [p EXCEPT !.c = [i \in 1..Len(p.c) |-> Label(p.c[i], n * 8 + i)]]
+  ELSE IF p.op = "switch" THEN
+    [p EXCEPT !.cases = [i \in 1..Len(p.cases) |-> <<Label(p.cases[i][1], n * 8 + 2 * i - 1), Label(p.cases[i][2], n * 8 + 2 * i)>>]]
+  ELSE IF p.op = "match" THEN [p EXCEPT !.sub = Label(p.sub, n * 8 + 1)]
+  ELSE p
 ====================================================================================
